@@ -124,9 +124,14 @@ PROPS["C20"] = {
 PROPS["C02"] = {
     "level": "other",
     "technique": "Verus contracts on the extracted CAS machinery: the cas_retry! macro body (at most 5 attempts, Ok only from a successful attempt, conflict => retry, other errors returned at once), put_with_cas (create-if-absent / update-if-ETag, conflicts mapped to Error::Conflict, overwrite only behind the opt-in) and the one-attempt bodies of register / delete / complete_compaction as pure transformers of the catalog loaded in the same attempt that keep chunk map and time index consistent",
+    "frame_scans": [{"file": "src/metadata/s3.rs", "patterns": [".put(", ".put_opts(", ".put_multipart("],
+                     "allowed_units": ["put_with_cas"],
+                     "allowed_functions": ["save_chunk_metadata_internal", "save_time_index", "save_chunk_metadata", "rebuild_time_index"],
+                     "message": "every write of a catalog object goes through put_with_cas (conditional PUT); the four legacy / maintenance functions exempted by name are an assumption of C02"}],
     "verus": ["c02_cas.rs.in", "c07_s3.rs.in", "c03_compaction.rs.in", "c02_wrappers.rs.in"],
     "explanation": "All interleavings are covered through the assumed conditional-PUT contract of the object store, not explored: each attempt is load -> pure transform -> put-with-the-ETag-just-loaded and reports success only after the put succeeded (per-function obligations, discharged); with atomic conditional PUT every successful mutation is f_op(previous version) and every failed one leaves the object unchanged, so the version history is a one-at-a-time history and every version satisfies the chunk-map/time-index invariant. The serialisation argument itself is not mechanised.",
     "assumptions": [
+        "frame scan exemptions: save_chunk_metadata (pub test helper), save_chunk_metadata_internal, save_time_index and rebuild_time_index (used by the offline bins backfill_levels / rebuild_metadata) overwrite catalog objects unconditionally; they are assumed not to run concurrently with live writers -- run against a live cluster they would lose concurrent catalog updates",
         "object_store conditional PUT: Create succeeds only if absent, Update(etag) only if the stored ETag matches, both atomic; a failed put has no effect (ghost ObjStore / catalog store shims)",
         "u64::pow(2, e) <= 65536 for e <= 16 (assume_specification)",
         "serde_json round-trips the catalog",
@@ -164,6 +169,9 @@ PROPS["C19"] = {
 PROPS["C09"] = {
     "level": "other",
     "technique": "Verus contracts on the extracted persist_pending_deletions / load_pending_deletions (what is persisted at the end of a cycle is the complete pending list; after a restart exactly the persisted and the already pending paths are pending, each path once); Verus contracts on the extracted Compactor::garbage_collect (every path handed to the object store's delete was pending, past its grace period and unpinned when checked; the four closures are lifted and verified), Compactor::enforce_retention (only chunks whose newest row is older than the cut-off leave the catalog), BoundedClock::retention_cutoff_nanos and ChunkPinRegistry::is_pinned",
+    "frame_scans": [{"file": "src/compactor/mod.rs", "patterns": [".delete(", ".delete_chunk("],
+                     "allowed_units": ["garbage_collect", "enforce_retention"],
+                     "message": "the compactor deletes objects only in garbage_collect and drops catalog entries only in enforce_retention (nothing else is ever deleted)"}],
     "verus": ["c09_gc.rs.in", "c03_compactor.rs.in"],
     "explanation": "Sequential per-pass obligations proved for all pending lists, pin sets, clocks and configurations in the stated ranges. A pin taken between GC's check and its delete (schedule) and the persistence of pending deletions across restarts (load / persist merge) are not covered; the catalog's max_timestamp is taken to be the chunk's true newest row (C06/C07 contracts).",
     "assumptions": [
@@ -250,6 +258,9 @@ PROPS["C11"] = {
 PROPS["C16"] = {
     "level": "other",
     "technique": "Verus contract on the extracted CachedObjectStore::get (the cache is asked under the key of `location`, the miss path fetches `location` itself, the bytes and the range handed back are the whole object); Verus contracts on the extracted TieredCache::get_or_fetch (representation invariant: whatever L1 / L2 may hold under a key is the backing store's bytes of that key; a successful read returns exactly those bytes; inserts only under the requested key), TieredCache::invalidate and CachedObjectStore::get_opts / delete / rename (ranged and conditional reads bypass the cache, delete and rename invalidate)",
+    "frame_scans": [{"file": "src/query/cached_store.rs", "patterns": ["self.cache.get_or_fetch(", "self.cache.get("],
+                     "allowed_units": ["store_get"],
+                     "message": "the tiered cache is read only by the whole-object GET (ranged / conditional reads and every other request go to the backing store)"}],
     "verus": ["c16_cache.rs.in"],
     "explanation": "Transparency is proved for every sequence of operations (invariant preserved by each operation) under the ASSUMED moka / foyer contract that get(k) returns only a value previously inserted under k (eviction = absence at any time). CachedObjectStore::get itself (closure / stream plumbing around get_or_fetch) enters through an assumed contract; concurrent readers of one key and eviction timing inside moka / foyer are not covered; other GetOptions fields (if_modified_since, version, head) are not examined by the code and not by this check.",
     "assumptions": [
